@@ -29,7 +29,7 @@ from ..ref import lazy
 PROPERTY = 'C10'
 LEVEL = 'exploration'
 RULE = ('families: IFS = 30 simple conditions (literals, a cell over 9 '
-        'values, SPY-wrapped cell, A1>1) x 18 x 19 branch forms (constants, '
+        'values, SPY-wrapped cell, A1>1) x 19 x 20 branch forms (constants, '
         'cell, SPY, error value, unknown function, circular reference, SPY '
         'around each, unknown function around a SPY, nested IF, AND/OR of '
         'spies; b may be '
@@ -74,12 +74,14 @@ CONTENT = {'T': True, 'F': False, '0': 0, '2': 2, '-1': -1, '.5': 0.5,
            # a cell whose value is IF's default branch (FALSE)
            'D': '=IF(FALSE,5)',
            # non-zero numbers far below 1e-15: TRUE like any non-zero number
-           'S': 1e-16, 'M': -2.5e-300}
+           'S': 1e-16, 'M': -2.5e-300,
+           # a zero that is a float
+           'Z': 0.0}
 REFVAL = {'T': True, 'F': False, '0': 0.0, '2': 2.0, '-1': -1.0, '.5': 0.5,
           'B': None, 'E': lazy.Err('#DIV/0!'), 'N': lazy.Err('#N/A'),
-          'D': False, 'S': 1e-16, 'M': -2.5e-300}
+          'D': False, 'S': 1e-16, 'M': -2.5e-300, 'Z': 0.0}
 T5 = ('T', 'F', '0', '2', 'B')
-T6 = ('T', 'F', '0', '2', 'B', 'E', 'D')
+T6 = ('T', 'F', '0', '2', 'B', 'E', 'D', '.5', 'Z')
 
 FIVE = ('lit', '5', 5.0)
 ONE = ('lit', '1', 1.0)
@@ -394,6 +396,8 @@ def branch_forms(k):
         ('spyW', S(k, WREF)),
         ('spy5', S(k, FIVE)), ('spyV', S(k, VREF)),
         ('div0', DIV0), ('nosuch', NOSUCH), ('cycle', CYCLE),
+        # an error value written as a literal
+        ('errlit', ('err', '#N/A', '#N/A')),
         ('spy-div0', S(k, DIV0)), ('spy-nosuch', S(k, NOSUCH)),
         ('spy-cycle', S(k, CYCLE)),
         ('nosuch-of-spy', ('wrapraise', 'NOSUCH', S(k, FIVE))),
@@ -404,7 +408,7 @@ def branch_forms(k):
     ]
 
 
-POISON_FORMS = ('div0', 'nosuch', 'cycle', 'spy-div0', 'spy-nosuch',
+POISON_FORMS = ('div0', 'errlit', 'nosuch', 'cycle', 'spy-div0', 'spy-nosuch',
                 'spy-cycle', 'nosuch-of-spy', 'nested-if-T', 'nested-if-F')
 SPY_FORMS = ('spy5', 'spyV', 'spyW', 'spy-div0', 'spy-nosuch', 'spy-cycle',
              'nosuch-of-spy', 'nested-if-T', 'nested-if-F')
@@ -691,6 +695,48 @@ def judge_flip(pname, tname, seq, ctx):
                  'on the same evaluator' % ('/'.join(seq), AT))
 
 
+# -- truth assignments to cells that did not exist when the model was compiled
+ABSENT_TREES = (
+    ('and', [('ref', 'A1'), ('ref', 'B1')]),
+    ('or', [('ref', 'A1'), ('ref', 'B1')]),
+    ('if', ('ref', 'A1'), ('lit', '1', 1.0), ('lit', '2', 2.0)),
+    ('if', ('and', [('ref', 'A1'), ('ref', 'B1')]), ('lit', '1', 1.0),
+     ('lit', '2', 2.0)),
+    ('not', ('ref', 'A1')),
+)
+
+
+def run_absent(ctx):
+    """The model holds only the formula; A1 and B1 get their first values -
+    FALSE and 0 among them - through set_cell_value."""
+    for ti, tree in enumerate(ABSENT_TREES):
+        text = lazy.render(tree)
+        for ta in ('T', 'F', '0', '2'):
+            for tb in ('T', 'F', '0', '2'):
+                for how in ('evaluator', 'model'):
+                    env = {'A1': ta, 'B1': tb}
+                    key = 'C10/ABSENT/%s/%s/%s' % (text, envstr(env), how)
+                    inputs = {'kind': 'absent', 'tree': ti}
+                    tags = ['family:absent-cells', 'set:' + how]
+                    try:
+                        want = lazy.evaluate(tree, decode(env))
+                    except (lazy.Unjudged, lazy.Raises):
+                        ctx.skip('unjudged')
+                        continue
+                    model = lib.compile_dict({AT: '=' + text})
+                    ev = lib.Evaluator(model)
+                    setter = ev.set_cell_value if how == 'evaluator' \
+                        else model.set_cell_value
+                    for c, t in sorted(env.items()):
+                        lib.observe(setter, SHEET + c, CONTENT[t])
+                    got = lib.eval_addr(model, AT, ev)
+                    if value_ok(want.value, got):
+                        ctx.ok(key, got, True)
+                    else:
+                        ctx.fail(key, tags, inputs, show(want.value), got,
+                                 True)
+
+
 # -- the first call of a function in a process --------------------------------
 # Laziness must not depend on how many arguments the FIRST call of IF / AND /
 # OR in the process happened to have.  Each sequence runs in a fresh
@@ -776,6 +822,7 @@ def plan(tier):
     for pname in sorted(FLIP_POISON):
         shards.append({'fam': 'FLIP', 'tier': tier, 'poison': pname})
     shards.append({'fam': 'FIRST', 'weight': 5})
+    shards.append({'fam': 'ABSENT'})
     ncall = len(call_cases(tier))
     for lo in range(0, ncall, 500):
         shards.append({'fam': 'CALL', 'tier': tier, 'lo': lo,
@@ -898,6 +945,10 @@ def run_shard(shard, ctx):
         name, args, env = forms[shard['lo']]
         ctx.sample({'family': 'ANDOR', 'formula': '=' + lazy.render(
             ('and', [S(i, a) for i, a in enumerate(args)])), 'cells': env})
+    elif fam == 'ABSENT':
+        run_absent(ctx)
+        ctx.sample({'family': 'ABSENT', 'cells': {'Z1': '=AND(A1,B1)'},
+                    'history': 'set A1 := FALSE; set B1 := TRUE; evaluate'})
     elif fam == 'FIRST':
         run_firstcall(ctx)
         ctx.sample({'family': 'FIRST', 'fresh process': [
@@ -958,6 +1009,8 @@ def replay(inputs, ctx):
         judge_andor(inputs['fam'], inputs['fn'],
                     [_tup(a) for a in inputs['args']], inputs['env'],
                     inputs['spied'], inputs['tags'], ctx)
+    elif kind == 'absent':
+        run_absent(ctx)
     elif kind == 'firstcall':
         run_firstcall(ctx)
     elif kind == 'flip':
@@ -969,7 +1022,7 @@ def replay(inputs, ctx):
 
 def selftest():
     lazy.selftest()
-    assert len(branch_forms(0)) == 18 and len(all_pairs()) == 18 * 19
+    assert len(branch_forms(0)) == 19 and len(all_pairs()) == 19 * 20
     assert len(simple_conditions()) == 30
     assert len(shapes(1, 3)) == 40
     assert lazy.render(build(('I3', 'L', ('N', 'G'), 'L'))) == \
